@@ -11,6 +11,10 @@ results of `net.SplitHostPort`/`net.ParseIP`.  Every theorem is for all of them,
 routes (`Req.kind = http | tcp path`), and - since `routeAt` is fuel-bounded recursion - for
 every fuel: the recursion ends by itself.
 
+A local upstream whose `Dial()` answers `upstream.ErrGone` (`World.gone`: the listener sent a
+yamux GoAway, the session is still registered) is removed (`RemoveConn`) by the node that
+dialled it and the request is answered 502 there - it is not re-selected and not forwarded.
+
 The forwarding step is the repaired one (1c64d44): `removeConnectionOptions` takes the piko
 header names out of `Connection` before the marker is set, so the reverse proxy's hop-by-hop
 removal cannot delete the marker (`forwardReqUnrepaired_loses_marker` is the regression).
@@ -29,18 +33,19 @@ theorem C06_one_hop (lib : Lib) (fuel : Nat) (w : World) (entry : String) (r : R
     (routeAt lib fuel w entry r choices).1.via.length ≤ 1 ∧
     (2 ≤ fuel → (routeAt lib fuel w entry r choices).1.outcome ≠ .outOfFuel) ∧
     (route lib w entry r choices).1.outcome ≠ .outOfFuel := by
-  obtain ⟨h1, h2, h3⟩ := routeAt_hops lib fuel w entry r choices
+  obtain ⟨h1, h2, h3, _⟩ := routeAt_hops lib fuel w entry r choices
   refine ⟨h1, by unfold Result.hops; omega, h2, h3, ?_⟩
-  exact (routeAt_hops lib routeFuel w entry r choices).2.2 (by decide)
+  exact (routeAt_hops lib routeFuel w entry r choices).2.2.1 (by decide)
 
-/-- A node that has at least one local upstream for the endpoint the request names serves the
-request itself, with one of those upstreams, in zero hops - whatever its routing view says
-and whether or not the request carries the forward marker. -/
+/-- A node that has at least one local upstream for the endpoint the request names handles the
+request itself, in zero hops and without any forwarding decision - whatever its routing view
+says and whether or not the request carries the forward marker: it delivers it to one of those
+upstreams, or, when the one it selected answers `ErrGone`, removes that one and answers 502. -/
 theorem C06_local_first (lib : Lib) (w : World) (entry : String) (m : Mgr) (r : Req) (choices : List Nat)
     (e : String) (hn : w.nodes.find entry = some m) (hok : LbOk m)
     (he : endpointOf lib r = some e) (hreg : m.registry e ≠ []) :
     ∃ u, u ∈ m.registry e ∧
-      (route lib w entry r choices).1 = { visited := [entry], via := [], outcome := .served entry e u } ∧
+      (route lib w entry r choices).1 = { visited := [entry], via := [], outcome := if w.isGone entry e u then .gone entry e u else .served entry e u } ∧
       (route lib w entry r choices).1.hops = 0 := by
   obtain ⟨u, hu, hr⟩ := routeAt_local lib 2 w entry r choices m e hn hok he hreg
   refine ⟨u, hu, hr, ?_⟩
@@ -49,13 +54,13 @@ theorem C06_local_first (lib : Lib) (w : World) (entry : String) (m : Mgr) (r : 
 
 /-- The same for the entry node being in any state reachable from a fresh node by any
 sequence of AddConn/RemoveConn/Select, paired with any routing view: if the reference registry
-has an upstream for the endpoint, it is served there. -/
+has an upstream for the endpoint, the request is handled there. -/
 theorem C06_local_first_reachable (lib : Lib) (w : World) (entry proxy admin : String) (ops : List Op)
     (view : Cluster.State) (r : Req) (choices : List Nat) (e : String)
     (hn : w.nodes.find entry = some { reach entry proxy admin ops with cluster := view })
     (he : endpointOf lib r = some e) (hreg : refRun ops e ≠ []) :
     ∃ u, u ∈ refRun ops e ∧
-      (route lib w entry r choices).1 = { visited := [entry], via := [], outcome := .served entry e u } := by
+      (route lib w entry r choices).1 = { visited := [entry], via := [], outcome := if w.isGone entry e u then .gone entry e u else .served entry e u } := by
   obtain ⟨u, hu, hr, _⟩ := C06_local_first lib w entry _ r choices e hn
     (lbOk_reach_view entry proxy admin ops view) he
     (by rw [registry_reach_view]; exact hreg)
@@ -63,24 +68,28 @@ theorem C06_local_first_reachable (lib : Lib) (w : World) (entry proxy admin : S
   exact ⟨u, hu, hr⟩
 
 /-- A request that carries the forward marker (`x-piko-forward: true`) is never forwarded:
-the receiving node serves it with one of its own upstreams for the endpoint, or answers 502
-when it has none (400 when the request names no endpoint) - and the request piko itself sends
-on always carries the marker. -/
-theorem C06_forwarded_terminal (lib : Lib) (m : Mgr) (r : Req) (hok : LbOk m) (hf : r.forwarded = true) :
-    (∀ e cs r', (handle lib m r).1 ≠ .forward e cs r') ∧
-    ((endpointOf lib r = none ∧ (handle lib m r).1 = .reply400) ∨
+the receiving node serves it with one of its own upstreams for the endpoint, or answers 502 -
+when it has none, or when the upstream it selected answers `ErrGone` (which is then removed,
+not replaced by another selection) - or 400 when the request names no endpoint; and the
+request piko itself sends on always carries the marker. -/
+theorem C06_forwarded_terminal (lib : Lib) (gone : String → Nat → Bool) (m : Mgr) (r : Req) (hok : LbOk m)
+    (hf : r.forwarded = true) :
+    (∀ e cs r', (handle lib gone m r).1 ≠ .forward e cs r') ∧
+    ((endpointOf lib r = none ∧ (handle lib gone m r).1 = .reply400) ∨
      (∃ e, endpointOf lib r = some e ∧
-        ((∃ u, u ∈ m.registry e ∧ (handle lib m r).1 = .serve e u) ∨
-         (m.registry e = [] ∧ (handle lib m r).1 = .reply502)))) ∧
+        ((∃ u, u ∈ m.registry e ∧ gone e u = false ∧ (handle lib gone m r).1 = .serve e u) ∨
+         (∃ u, u ∈ m.registry e ∧ gone e u = true ∧ (handle lib gone m r).1 = .dialGone e u) ∨
+         (m.registry e = [] ∧ (handle lib gone m r).1 = .reply502)))) ∧
     (∀ r0 : Req, (forwardReq r0).forwarded = true) := by
-  have h := handle_forwarded lib m r hf
+  have h := handle_forwarded lib gone m r hf
   refine ⟨?_, ?_, forwardReq_forwarded⟩
   · intro e cs r' hc
-    rcases h with ⟨_, h⟩ | ⟨e0, _, ⟨u, _, h⟩ | ⟨_, h⟩ | ⟨_, h⟩⟩ <;> rw [h] at hc <;> cases hc
-  · rcases h with h | ⟨e0, he0, h | h | ⟨h, _⟩⟩
+    rcases h with ⟨_, h⟩ | ⟨e0, _, ⟨u, _, _, h⟩ | ⟨u, _, _, h⟩ | ⟨_, h⟩ | ⟨_, h⟩⟩ <;> rw [h] at hc <;> cases hc
+  · rcases h with h | ⟨e0, he0, h | h | h | ⟨h, _⟩⟩
     · exact Or.inl h
     · exact Or.inr ⟨e0, he0, Or.inl h⟩
-    · exact Or.inr ⟨e0, he0, Or.inr h⟩
+    · exact Or.inr ⟨e0, he0, Or.inr (Or.inl h)⟩
+    · exact Or.inr ⟨e0, he0, Or.inr (Or.inr h)⟩
     · exact absurd hok h
 
 /-- the same on the routed request: a client request that already carries the marker ends at
@@ -151,6 +160,19 @@ example : (route { lib0 with splitHostPort := fun _ => some "e.piko.example.com"
     { visited := ["n0"], via := [], outcome := .served "n0" "e" 8 } := by decide
 example : (route lib0 stale "n1" { host := "x", epHeader := some "e" } []).1 =
     { visited := ["n1"], via := [("n1", "n2")], outcome := .unreachable } := by decide
+
+/-- the seeded regression shape: n0 believes n1, n1 has one upstream (7) for `e` that answers
+`ErrGone` and believes n2 (or n0) serves `e`: n1 removes it and answers 502 - no second hop -/
+def goneW : World :=
+  { nodes := [("n0", node "n0" [row "n1" "a1" "e"]),
+              ("n1", node "n1" [row "n2" "a2" "e", row "n0" "a0" "e"] [("e", { ups := [7] })]),
+              ("n2", node "n2" [])],
+    listen := [("a0", "n0"), ("a1", "n1"), ("a2", "n2")],
+    gone := [("n1", "e", 7)] }
+
+example : (route lib0 goneW "n0" { host := "x", epHeader := some "e" } []).1 =
+    { visited := ["n0", "n1"], via := [("n0", "n1")], outcome := .gone "n1" "e" 7 } := by decide
+example : (route lib0 goneW "n0" { host := "x", epHeader := some "e" } []).2.reg "n1" "e" = [] := by decide
 
 end C06Ex
 end Piko
